@@ -115,7 +115,7 @@ def line_parser_rules(ctx):
     for pb, pt in pushes:
         tgt = lp.arg_name(pt["args"][0])
         arg = ol.operand(pt["args"][1])
-        if tgt.endswith("command"):
+        if tgt.endswith(prog.field_by_type("LineParser", "Vec<String>", "command")):
             n_cmd += 1
             ch = chain_to(arg, lambda n: n.kind == "arg" and n.a == 2) or []
             ch = [c for c in ch if c not in ("Into::into", "From::from", "ToString::to_string", "ToOwned::to_owned")]
@@ -124,7 +124,7 @@ def line_parser_rules(ctx):
                       "a command line is stored as written after the exact prefix `%s`" % (pre[0] if pre else "?"),
                       "a command / continuation line is recognised or stored through %s with prefixes %s (documented: exactly `$ ` and `> `): output lines that merely "
                       "start with `>` are swallowed into the shell expression, or command text is altered" % (ch, pre))
-        elif tgt.endswith("expectations"):
+        elif tgt.endswith(prog.field_by_type("LineParser", "Vec<Expectation>", "expectations")):
             ch = chain_to(arg, lambda n: n.kind == "arg" and n.a == 2) or []
             ctx.check("ExpectationMaker::parse" in ch and not [c for c in ch if c in REWRITE], "expectation-verbatim", lp.loc(pb),
                       "an expectation line is handed to the expectation parser as written", "an expectation line flows through %s" % ch)
